@@ -164,9 +164,51 @@ func attackInterrupted(c *run.Ctx, r *kit.Rng, s *kit.Summary, st *kit.Stream, i
 		}
 		return false
 	}
+	// scrapeCheck: the exporter is scraped while nothing can complete (every in-flight request is held) and
+	// held against the results written so far; the same endpoint is scraped again and again, a fraction of
+	// a second apart, with results observed in between.
+	scrapes := 0
+	scrapeCheck := func(stage string) bool {
+		results := decodeAll(output)
+		resp, err := http.Get(fmt.Sprintf("http://127.0.0.1:%d/metrics", promPort))
+		if err != nil {
+			s.Violate(kit.Violation{Kind: "prom_exporter_unreachable", What: "the Prometheus exporter does not answer while requests are in flight (" + stage + ")", Observed: err.Error()})
+			return false
+		}
+		body, _ := io.ReadAll(resp.Body)
+		resp.Body.Close()
+		if again := decodeAll(output); len(again) != len(results) {
+			skip("not_quiescent")
+			return false
+		}
+		var parser expfmt.TextParser
+		fams, err := parser.TextToMetricFamilies(bytes.NewReader(body))
+		if err != nil {
+			s.Count("attack:exposition_unrecognised")
+			return false
+		}
+		sq := sequence{}
+		for _, x := range results {
+			sq.Results = append(sq.Results, res{Method: x.Method, URL: x.URL, Code: x.Code, BIn: x.BytesIn, BOut: x.BytesOut, Lat: int64(x.Latency), Err: x.Error})
+		}
+		var list []*dto.MetricFamily
+		for _, f := range fams {
+			list = append(list, f)
+		}
+		sc := scrapeOf(list)
+		scrapes++
+		s.Count("attack:scrapes_of_one_endpoint")
+		s.Count("attack:scrape_" + stage)
+		st.Add(opLine(sq), sc.line(true))
+		oracle(s, sq, sc)
+		return true
+	}
 	// all workers are held and everything answered so far has been written
 	if !waitFor(func() bool { return heldCount() >= k && len(decodeAll(output)) >= served }) {
 		skip("not_held_in_time")
+		return
+	}
+	if !scrapeCheck("all_held") {
 		return
 	}
 	// the one interrupt: the attack stops issuing hits, the held requests stay in flight
@@ -183,40 +225,16 @@ func attackInterrupted(c *run.Ctx, r *kit.Rng, s *kit.Summary, st *kit.Stream, i
 			skip("drained_result_not_written_in_time")
 			return
 		}
+		if j < k-2 && !scrapeCheck("between_releases") {
+			return
+		}
 	}
 	// at least one request is still held: the command is alive, nothing more can complete
-	results := decodeAll(output)
-	resp, err := http.Get(fmt.Sprintf("http://127.0.0.1:%d/metrics", promPort))
-	if err != nil {
-		s.Violate(kit.Violation{Kind: "prom_exporter_unreachable", What: "the Prometheus exporter does not answer while interrupted requests are still in flight", Observed: err.Error()})
+	if !scrapeCheck("after_drain") {
 		return
 	}
-	body, _ := io.ReadAll(resp.Body)
-	resp.Body.Close()
-	if again := decodeAll(output); len(again) != len(results) {
-		skip("not_quiescent")
-		return
-	}
-	var parser expfmt.TextParser
-	fams, err := parser.TextToMetricFamilies(bytes.NewReader(body))
-	if err != nil {
-		s.Violate(kit.Violation{Kind: "prom_exporter_unparsable", What: "exporter output is not valid exposition text", Observed: err.Error()})
-		return
-	}
-	sq := sequence{}
-	for _, x := range results {
-		sq.Results = append(sq.Results, res{Method: x.Method, URL: x.URL, Code: x.Code, BIn: x.BytesIn, BOut: x.BytesOut, Lat: int64(x.Latency), Err: x.Error})
-	}
-	var list []*dto.MetricFamily
-	for _, f := range fams {
-		list = append(list, f)
-	}
-	sc := scrapeOf(list)
-	s.Case(fmt.Sprintf("attack_interrupted:%d:%d", idx, len(results)), true)
+	s.Case(fmt.Sprintf("attack_interrupted:%d", idx), true)
 	s.Count("attack:interrupted_runs")
-	s.CountN("attack:results_after_interrupt", len(results)-served)
-	st.Add(opLine(sq), sc.line(true))
-	oracle(s, sq, sc)
 }
 
 func attackRun(c *run.Ctx, r *kit.Rng, s *kit.Summary, st *kit.Stream, idx int) {
